@@ -666,6 +666,12 @@ func runC05(c *config) {
 		{"define i8* @f() {\n\tret i8* blockaddress(@nope, %b)\n}\n", "", "Err"},
 		{"@g = global i32 0, !dbg !7\n", "", "Err"},
 		{"!named = !{!7}\n", "", "Err"},
+		// an undefined metadata ID in every attachment position
+		{"declare !dbg !7 void @f(i32)\n", "", "Err"},
+		{"define void @f() !dbg !7 {\n\tret void\n}\n", "", "Err"},
+		{"define void @f() {\n\tret void, !dbg !7\n}\n", "", "Err"},
+		{"define void @f() {\n\t%x = add i32 1, 2, !tag !7\n\tret void\n}\n", "", "Err"},
+		{"declare void @m(metadata)\ndefine void @f() {\n\tcall void @m(metadata !7)\n\tret void\n}\n", "", "Err"},
 		{"!0 = !{!7}\n", "", "Err"},
 		{"@g = global i32 0, comdat($nope)\n", "", "Err"},
 		{"@g = external global %nope\n", "", "Err"},
@@ -820,6 +826,14 @@ func runC12(c *config) {
 			inputs = append(inputs, sb.String())
 		}
 	}
+	// bytes that only mean something to one of the entry points: CR LF inside quoted strings (a section name, a
+	// metadata string, a character array whose length counts both bytes), CR LF and a lone CR between tokens
+	inputs = append(inputs,
+		"@a = global i32 0, section \"x\r\ny\"\r\n!0 = !{!\"line1\r\nline2\"}\r\n",
+		"@s = global [4 x i8] c\"x\r\ny\"\n",
+		"@s = global [3 x i8] c\"x\r\ny\"\n",
+		"@a = global i32 0\r\n@b = global i32 1\r\n\r\ndefine void @f() {\r\n\tret void\r\n}\r\n",
+	)
 	// invalid texts whose fault sits in one top-level entity and refers into another (a blockaddress of a block
 	// that the named function does not have, from a global, an alias target expression, another function): whether
 	// the text is rejected must not depend on which of the two is translated first
